@@ -6,7 +6,7 @@ from harness import interp_common as ic
 from harness.interp_gen import Gen
 
 PROP = 'C05'
-LEAN_MODULES = ['Glom.Props.C05']
+LEAN_MODULES = ['Glom.Props.C05', 'Glom.Props.C05Spine']
 FACT_FILES = []
 READY = True
 RULE = ('failing evaluations only: a random target (short, long (lists of 40+ items, 300-char strings) or non-ASCII '
@@ -21,22 +21,43 @@ RULE = ('failing evaluations only: a random target (short, long (lists of 40+ it
         'a chain or a truncation); distinct = distinct (events, width)')
 TRUSTED = ['bbrepr of specs/targets and traceback.format_exception_only texts are taken as given strings']
 ASSUMPTIONS = ['the Python traceback lines appended after the trace are Python\'s (not compared)',
+               'the structural theorems (Props/C05Spine) are about evaluation trees: every recorded evaluation is checked to be '
+               'the event list of a well-formed tree (a chained step continues from a sub-evaluation that returned; the root '
+               'error identity is the outcome of calls along one propagation path only)',
                'the evaluation tree is observed through scope[glom]: a spec type that bypasses scope[glom] is invisible']
 MANIFEST = dict(
     text=("partial. Lean 4 model of glom's error bookkeeping exactly as coded (_glom's exception handler with the "
           "NO_PYFRAME walk, chain_child's re-wiring and forgiving, LAST_CHILD_SCOPE / CHILD_ERRORS / CUR_ERROR, "
           "_unpack_stack, format_target_spec_trace with its gutter marks, _format_trace_value) replayed over the "
-          "recorded evaluation tree; theorems for every frame store / event / width: the unpacked stack descends through "
-          "LAST_CHILD_SCOPE pointers, entering a call makes it the last child, a chained step forgives earlier branches, "
-          "push-down and trimming keep the rows and the root, truncation is prefix-preserving and fits the width. The "
-          "property itself (begins with the root target, lists the failing path in order, shows the failing spec's "
-          "target, shows every failed branch with its error) is a Lean predicate checkC05 evaluated on the real trace text "
-          "and on the model's text for every recorded evaluation; the model must reproduce the real text character for "
-          "character."),
-    note=("partial: checkC05 of the model's text is validated per case, not proved for all event lists; repr of objects and "
-          "the traceback tail are Python's. trusted: Lean kernel + {propext, Classical.choice, Quot.sound}; harness/driver; "
-          "the tracer (documented scope[glom] override) sees every nested evaluation."),
-    technique='Lean 4 model of the bookkeeping + structural theorems + property predicate evaluated on real and model trace text (differential, character-exact)',
+          "recorded evaluation. Structural theorems for EVERY well-formed evaluation tree (call nodes whose "
+          "sub-evaluations are made with the node's own scope or through chain_child, outcomes returned / raised "
+          "error identity; induction, no size bound; Props/C05Spine): c05_frames - the frame store after the whole "
+          "evaluation in closed form (up, LAST_CHILD_SCOPE, CHILD_ERRORS, CUR_ERROR, NO_PYFRAME of every frame, incl. "
+          "the walk that records an error on every frame of a chain); c05_unpack_rows - the rows of _unpack_stack "
+          "from any frame; c05_spine / c05_spine_from / c05_first_row - against the reference notions callsOf/spine "
+          "of the checker: the first row is the root call, the calls the root error propagated through occur among "
+          "the rows in evaluation order, the only extra rows before the failing call are completed earlier chain "
+          "steps (no branches), exactly one row shows the root error and it is the innermost call of the listed "
+          "path, rows after it show other errors, and where the linear descent stops at a branching row the branch "
+          "that really raised is among its branches and the theorem applies to it again; c05_branches - a row's "
+          "branches are its frame's CHILD_ERRORS (heads of the chain segments in which a step raised; the "
+          "sub-evaluations that raised when none is chained) unless that is the single last child; "
+          "c05_last_row_partial + c05_last_row_counterexample - 'the last row is the call that raised' holds when no "
+          "other error was raised, not in general (glom({}, Not(Not('x'))): rows continue below the failing call). "
+          "Every recorded real evaluation is checked to be the event list of such a tree (treeOf/events round trip, "
+          "chainOk, onePath) - a case outside the theorems' domain is a disagreement. Local theorems (Props/C05): "
+          "the unpacked stack descends through LAST_CHILD_SCOPE pointers, entering a call makes it the last child, "
+          "a chained step forgives earlier branches, push-down and trimming keep the rows and the root, truncation "
+          "is prefix-preserving and fits the width. The property on the TEXT (begins with the root target, lists "
+          "the failing path in order, shows the failing spec's target, shows every failed branch with its error) is "
+          "a Lean predicate checkC05 evaluated on the real trace text and on the model's text for every recorded "
+          "evaluation; the model must reproduce the real text character for character."),
+    note=("partial: the lift from the rows to the rendered text (checkC05 of the model's text) is validated per case, "
+          "not proved; the relation of CHILD_ERRORS to the checker's failedBranches is proved for unchained "
+          "sub-evaluations only; repr of objects and the traceback tail are Python's. trusted: Lean kernel + "
+          "{propext, Classical.choice, Quot.sound}; harness/driver; the tracer (documented scope[glom] override) "
+          "sees every nested evaluation."),
+    technique='Lean 4 model of the bookkeeping + structural theorems over evaluation trees (induction) with a per-case domain check + property predicate evaluated on real and model trace text (differential, character-exact)',
     ref='DESIGN.md §3 C05')
 
 
